@@ -1,0 +1,5 @@
+//go:build !verif
+
+package updog
+
+func verifPoint(site string, arg uint64) {}
